@@ -11,6 +11,8 @@
      addfac(c, ts, n, desc, flaw, async, fid, r, evs)
      get(c, t, n, api, opt, r, vid, evs)           r: val | None | ResourceNotFound | AsyncResourceError | RuntimeError | other
      getall(c, t, found)   outside(reason)
+     cadd(n, isdefault, starting, defname, desc, fac, r, delegated, in = [n, desc, r, fac])   a ComponentContext's add call and the
+                                                   context-level call it delegated to (recorded within it)
    all but exit.begin with post = << [c, st, res = <<t, n, vid, gen>>.., fac = <<t, n, fid>>..] .. >> for every context.
    "other" = the call ended in a way the specification does not describe (a factory that raised, a cancellation): nothing
    is concluded from the result, the state must be unchanged.  The verdict names the property of the first failing clause. *)
@@ -128,6 +130,17 @@ StepGetAll ==
            ELSE IF ToSet(E.found) # exp THEN "C02:get_resources-disagrees-with-the-tables"
            ELSE PostVerdict(PostWhy(E.post, cstate, res, fac, vbind, fbind, c), c, "C03:lookup-changed-the-context", "C02:lookup-changed-another-context"), "getall")
 
+\* ComponentContext.add_resource / add_resource_factory delegate to the context the component tree was started in: same arguments,
+\* except that the name "default" becomes the name given by the component's alias (kind/name) while the component's start() runs
+StepCAdd ==
+  /\ UNCHANGED <<core, obs, vbind, fbind>>
+  /\ Judge(IF E.r = "other" THEN ""
+           ELSE IF ~E.delegated THEN (IF E.r = "ok" THEN "C14:component-context-did-not-delegate-the-registration" ELSE "")
+           ELSE IF E.in.fac # E.fac THEN "C14:component-context-delegated-to-the-wrong-operation"
+           ELSE IF E.in.n # (IF E.isdefault /\ E.starting THEN E.defname ELSE E.n) THEN "C14:resource-name-given-to-the-context-is-not-what-the-alias-rule-says"
+           ELSE IF E.in.desc # E.desc THEN "C18:description-lost-between-the-component-and-the-context"
+           ELSE IF E.in.r # E.r THEN "C03:outcome-of-the-delegated-registration-not-passed-on"
+           ELSE "", "cadd")
 TInit == /\ tid \in 1..Len(Traces) /\ l = 1 /\ ok = TRUE /\ why = "" /\ at = 0 /\ live = TRUE /\ vbind = {} /\ fbind = {} /\ hits = {}
          /\ cstate = [c \in Ctxs |-> "unborn"] /\ parent = [c \in Ctxs |-> 0]
         /\ res = [c \in Ctxs |-> [k \in Keys |-> NoneR]] /\ fac = [c \in Ctxs |-> [k \in Keys |-> NoneR]]
@@ -143,6 +156,7 @@ TNext ==
             [] E.ev = "addfac" -> StepAddFac
             [] E.ev = "get" -> StepGet
             [] E.ev = "getall" -> StepGetAll
+            [] E.ev = "cadd" -> StepCAdd
             [] OTHER -> Outside(E.reason)
 Report == (l = Len(Traces[tid].events) + 1) =>
             PrintT(ToJson([end |-> Traces[tid].id, ok |-> ok, step |-> at, why |-> why, live |-> live, hits |-> SetToSeq(hits)]))
